@@ -332,13 +332,17 @@ func runSchedule(idx int, rec *Rec, report func(sig, detail string)) (conclusive
 		case "drain":
 			drained = true
 			drain()
-		case "drop":
+		case "drop", "halfclose":
 			dropped = true
-			p.Close()
+			if tc, ok := p.C.(*net.TCPConn); ok && s.A == "halfclose" {
+				tc.CloseWrite() // only the peer's sending side ends; it still does not read
+			} else {
+				p.Close()
+			}
 			select {
 			case <-conn.Closed().Wait():
 			case <-time.After(stepTimeout):
-				report("stuck:drop", fmt.Sprintf("step %d: the connection did not close within %v after the peer dropped it", k, stepTimeout))
+				report("stuck:"+s.A, fmt.Sprintf("step %d: the connection did not close within %v after the peer's %s", k, stepTimeout, s.A))
 				close(stopFill)
 				return
 			}
@@ -625,13 +629,17 @@ func runWindowSchedule(idx int, rec *Rec, report func(sig, detail string)) bool 
 				report("harness", "window write: "+err.Error())
 				return false
 			}
-		case "drop":
+		case "drop", "halfclose":
 			dropped = true
-			p.Close()
+			if tc, ok := p.C.(*net.TCPConn); ok && s.A == "halfclose" {
+				tc.CloseWrite()
+			} else {
+				p.Close()
+			}
 			select {
 			case <-conn.Closed().Wait():
 			case <-time.After(stepTimeout):
-				report("stuck:drop", fmt.Sprintf("step %d: the connection did not close within %v after the peer dropped it", k, stepTimeout))
+				report("stuck:"+s.A, fmt.Sprintf("step %d: the connection did not close within %v after the peer's %s", k, stepTimeout, s.A))
 				return true
 			}
 		}
